@@ -374,6 +374,69 @@ def _num(x):
         return str(x)
 
 
+def _val(n):
+    """canonical text of the datum a node stands for (mappings by sorted key)"""
+    try:
+        if hasattr(n, "key") and hasattr(n, "value"):
+            o = (n.key.to_obj(), n.value.to_obj())      # KeyValuePairNode.to_obj() returns the two NODES
+        else:
+            o = n.to_obj()
+    except Exception:
+        return "?" + type(n).__name__
+
+    def c(o):
+        if isinstance(o, dict):
+            return "{" + ",".join(sorted(f"{c(k)}:{c(v)}" for k, v in o.items())) + "}"
+        if isinstance(o, (list, tuple)):
+            return "[" + ",".join(c(x) for x in o) + "]"
+        return f"{type(o).__name__}:{o!r}"
+    return c(o)
+
+
+def _marks_check(root):
+    """C01 on the ANNOTATED tree that diff() returns (the marks `removed`, `inserted`, `edit.to_node`): inside every
+    container whose edit is a compound edit, every child is either marked removed or carries an edit towards a node of
+    the second document; the kept children's targets together with the nodes listed in `inserted` are exactly the
+    children of the second container (as data, with multiplicity), and for lists the kept targets appear in order."""
+    from collections import Counter
+    from graphtage import ListNode, MultiSetNode, FixedKeyDictNode
+    from graphtage.tree import CompoundEdit
+    problems = []
+    stack = [(root, "")]
+    while stack:
+        n, path = stack.pop()
+        e = getattr(n, "edit", None)
+        if e is None or not isinstance(e, CompoundEdit) or getattr(n, "removed", False):
+            continue
+        m = e.to_node
+        if not isinstance(n, (ListNode, MultiSetNode, FixedKeyDictNode)) or type(m).__name__.replace("Edited", "") != type(n).__name__.replace("Edited", ""):
+            continue
+        kids = list(n.children())
+        kept = []
+        for i, c in enumerate(kids):
+            ce = getattr(c, "edit", None)
+            if getattr(c, "removed", False):
+                continue
+            if ce is None:
+                problems.append(["child-unaccounted", f"{path}/{i}: neither marked removed nor given an edit"])
+                continue
+            kept.append(_val(ce.to_node))
+            stack.append((c, f"{path}/{i}"))
+            if hasattr(c, "value") and hasattr(c, "key"):        # key/value pair: descend into the value
+                stack.append((c.value, f"{path}/{i}.value"))
+        ins = [_val(x) for x in getattr(n, "inserted", [])]
+        target = [_val(x) for x in m.children()]
+        if Counter(kept) + Counter(ins) != Counter(target):
+            extra = Counter(kept) + Counter(ins) - Counter(target)
+            missing = Counter(target) - (Counter(kept) + Counter(ins))
+            problems.append(["second-document-not-accounted", f"{path}: kept+inserted differs from the second container: missing {dict(missing)}, surplus {dict(extra)}"])
+        elif isinstance(n, ListNode):
+            it = iter(target)
+            if not all(any(k == t for t in it) for k in kept):
+                problems.append(["kept-order", f"{path}: the kept elements do not appear in the second list in this order"])
+    return problems
+
+
 def _csv_tree(rows, o):
     from graphtage import csv as gc, json as gj
     import graphtage
@@ -410,7 +473,12 @@ def _one(build, f, t):
     # independent views on fresh trees
     A2 = build(f)
     B2 = build(t)
-    edited = A2.diff(B2).edited_cost()
+    etree = A2.diff(B2)
+    edited = etree.edited_cost()
+    try:
+        marks = _marks_check(etree)
+    except Exception as ex:          # the walk itself must not hide a result
+        marks = [["walk-error", f"{type(ex).__name__}: {ex}"]]
     A3 = build(f)
     B3 = build(t)
     flat = 0
@@ -425,7 +493,7 @@ def _one(build, f, t):
                                           (Match, "match")) if isinstance(ed, c)), "other:" + type(ed).__name__))
     eq = bool(A._children == B._children) if type(A).__name__ == "CSVNode" else bool(A == B)   # CSVNode.__eq__ also equates "empty" tables
     return {"script": script, "oracle": oracle, "root": root, "edited_cost": int(edited), "flat_sum": flat,
-            "flat_n": nflat, "flat_kinds": sorted(kinds), "eq": eq, "sizes": [int(A.total_size), int(B.total_size)]}
+            "flat_n": nflat, "flat_kinds": sorted(kinds), "marks": marks, "eq": eq, "sizes": [int(A.total_size), int(B.total_size)]}
 
 
 def impl(case):
@@ -731,6 +799,8 @@ def monitor(case, obs):
             from collections import Counter
             a, b = Counter(leaves), Counter(obs["flat_kinds"])
             raw.append(("C01", "flat-list-differs", f"edit tree has leaf edits {dict(a - b)} that the flat edit list lacks; the flat list has {dict(b - a)} extra"))
+    for kind, what in obs.get("marks", []) or []:
+        raw.append(("C01", "marks:" + kind, "annotated tree (diff()): " + what))
     # ---- C02
     de = data_eq(case["f"], case["t"])
     if de is not None and isinstance(root, int):
